@@ -172,6 +172,7 @@ def do_op(u, letter, um, trimmed):
     pre_logv = np.array(u.log_v_all, copy=True)
     pre_total = float(um.logsumexp(np.asarray(u.log_v_all))) if len(np.atleast_1d(u.log_v_all)) else None
     pre_cache = len(u.points)
+    pre_block = [bool(x) for x in np.atleast_1d(u.block)]
     exc = None
     ret = None
     trim_or = None
@@ -227,6 +228,16 @@ def do_op(u, letter, um, trimmed):
         gone = [p for p in pre_pts if p not in now_pts]
         for g in gone:
             trimmed.update(g)
+    if exc is None and kind == 'trim' and ret and len(set(n)) == 1 and len(pre_block) == len(pre_bounds):
+        # one consistent record per ellipsoid: dropping one member leaves the records of the others (bound, points, volume,
+        # may-split flag) as they were
+        for i, b in enumerate(u.bounds):
+            j = next((k for k, pb in enumerate(pre_bounds) if pb is b), None)
+            if j is None:
+                fails.append(('trim-changed-record-of-survivor', 'after %s member %d is not one of the members before' % (letter, i)))
+            elif bool(u.block[i]) != pre_block[j] or now_pts[i] != pre_pts[j] or u.log_v_all[i] != pre_logv[j]:
+                fails.append(('trim-changed-record-of-survivor', 'after %s the record of a surviving ellipsoid changed (may-split flag %s -> %s, '
+                              '%d -> %d points)' % (letter, not pre_block[j], not bool(u.block[i]), len(pre_pts[j]), len(now_pts[i]))))
     have = sorted(x for p in now_pts for x in p)
     want = sorted(set(range(len(Obs.rows))) - trimmed)
     if have != want:
